@@ -30,8 +30,9 @@ func init() {
 			{Name: "lag", Variant: "plain", N: core.Tiered(13*20+300, 13*20+30000), Run: c11Lag},
 		},
 		RequireTags: func(string) []string {
-			return []string{"sr:path1", "sr:path2", "sr:path4", "sr:path6", "lag:lag>len", "lag:padded-row", "musk:steady", "musk:event", "musk:windows"}
+			return []string{"lag:lag>len", "lag:padded-row", "musk:steady", "musk:event", "musk:windows"}
 		},
+		ExpectTags: func(string) []string { return []string{"sr:path1", "sr:path2", "sr:path4", "sr:path6"} },
 	})
 }
 
